@@ -107,6 +107,19 @@ def rescale(s):
     return t
 
 
+def bundled(s):
+    """the same configuration with every timer twinned (same deadline) and all of them inside ONE composite event source
+    that forwards each event to all its timers -- sub-sources see each other's tokens (the oracle is unchanged: it only
+    depends on names and deadlines, the twins are in the echoed configuration)"""
+    t = json.loads(json.dumps(s))
+    t["id"] = s["id"] + "@bundle"
+    t["bundle"] = 1
+    t["timers"] = [x for tm in s["timers"] for x in (tm, dict(tm, n=tm["n"] + "2"))]
+    t["exp"]["fire"] = sorted(s["exp"]["fire"] + [n + "2" for n in s["exp"]["fire"]])
+    t["exp"]["fire2"] = sorted(s["exp"]["fire2"] + [n + "2" for n in s["exp"]["fire2"]])
+    return t
+
+
 def cost_s(s):
     return (s["exp"]["W_ms"] + s["exp"]["W2_ms"] + 3) / 1000.0
 
@@ -395,6 +408,21 @@ def engine(prop, tier, seed, work):
                          stats["ctl_p95"][0], stats["remeasured"], stats["cleared"]))
     for s in (todo[0], todo[len(todo) // 2], todo[-1]):
         res.samples.append({"engine": "timeout", "scenario": s})
+    # timers as sub-sources of one forwarding composite (twinned deadlines: two expirations in one poll)
+    cand = [s for s in todo if any(not t["far"] for t in s["timers"]) and s["wake"] == "none" and not s["intr"]]
+    bl, spent = [], 0.0
+    for s in cand:
+        if quick and spent + cost_s(s) > 4.0:
+            continue
+        bl.append(bundled(s))
+        spent += cost_s(s)
+    if bl and (not quick or time.time() < began + QUICK_DEADLINE_S):
+        t0 = time.time()
+        stats = judge(bl, work, "bundle", res, allow_prefix=quick, max_wall_s=8.0 if quick else None,
+                      deadline=began + QUICK_DEADLINE_S + 10 if quick else None)
+        res.notes.append("timers bundled in one forwarding composite source, every deadline twice: %d configurations measured in %.1f s" % (
+            stats["measured"], time.time() - t0))
+        res.samples.append({"engine": "timeout", "scenario": bl[0]})
     if not quick:
         odd = [rescale(s) for s in todo]
         t0 = time.time()
